@@ -432,6 +432,18 @@ def run(chk):
         g = SplineGroove(pts, classifiers=['x'])
         if not chk.failures:
             roll_oracle(chk, 'SplineGroove', {'contour_points': pts}, g, rng)
+    # square grids: a polyline sampled with exactly as many vertices as the grid has nodes in rolling direction (one fewer, one more as well)
+    if not chk.failures:
+        from pyroll.core import Roll
+        nx = Roll(groove=SplineGroove([(-3, 0), (-1, 1), (1, 1), (3, 0)], classifiers=['x']), nominal_radius=100).surface_x.size
+        for n in (nx - 1, nx, nx + 1):
+            z = np.linspace(-10.0, 10.0, n)
+            y = np.sqrt(12.0 ** 2 - z ** 2) - np.sqrt(12.0 ** 2 - 10.0 ** 2)
+            y[0] = y[-1] = 0
+            pts = np.column_stack([z, y])
+            g = SplineGroove(pts, classifiers=['round'])
+            if not chk.failures:
+                roll_oracle(chk, f'SplineGroove (circular arc sampled with {n} vertices; the grid has {nx} nodes in rolling direction)', {'vertices': n}, g, rng)
     if not chk.failures:
         entry_point_oracle(chk, rng)
     spline_cases(chk, rng, 150 if not chk.thorough else 1500)
